@@ -337,6 +337,7 @@ func init() {
 		ID:    "C03",
 		Level: "exploration",
 		Rule: "seeded interleavings (4 clients, call granularity) of ordinary and fork lock requests, body writes, finalizations and restarts over 2-5 output slots with 3-8 overlapping 1-2-input spends, 6 deposit identifiers differing only in chain/txid/index with 2 competing transactions each, and 2 mint batches with 3 competing transactions each; whole model re-read after every operation; " +
+			"Concurrent part (40% of the runs): 6-15 (thorough 10-49) rounds of 2-4 overlapping admissions (lock, then body write), finalization-path takeovers and lock reads over a contested slot, interleaved at store mutex acquisitions and Badger transaction begin/commit by a seeded scheduler (one task runs at a time); each round must be linearizable against the holder model (exhaustive search over the orders that respect real-time precedence) and leave the state that order produces; " +
 			"non-trivial = at least one lock granted and one refused; distinct = canonical-log digests. The cluster double-spend monitor (evidence of C01/C17 runs) adds the cross-node part.",
 		Components: r3Components,
 		Assume:     r3Assume,
